@@ -83,6 +83,22 @@ Definition chk_rebuild (prec : Z) (E : nat) (rprod : mat) (pre post : list track
   let l' := if Nat.eqb nfin 0 then l else compact_ids pre l in
   cmp_trackers (pow10 (- prec)) l' post ++ [ if Nat.eqb (E - nfin) E' then 0 else 3 ]%nat.
 
+(* reb.carry : the demand matrix after the ledgers (finished events release their block, the
+   blocks of the events that keep rebuilding are carried over) *)
+Definition chk_carry (prec : Z) (E : nat) (rprod : mat) (pre : list tracker) (d2 idem : mat) : nat :=
+  let l := rebuild_ledgers P prec E rprod pre in
+  let nfin := (count_rebuilding pre - count_rebuilding l)%nat in
+  let E' := (E - nfin)%nat in
+  let d3 := if Nat.eqb nfin 0 then d2
+            else tab2 N (WW P E') (fun f j =>
+                   if Nat.ltb j (N + F) then get d2 f j
+                   else moved_cell P E E' (kept_ids E l) d2 f (j - (N + F))) in
+  mcmp N (WW P E') z2 d3 idem.
+
+(* dtot.coherent : the cached total demand the phases read is the row sum of the demand matrix *)
+Definition chk_dtot (W : nat) (dem : mat) (idtot : vec) : nat :=
+  vcmp N (fun f => sumn W (fun j => qabs (get dem f j))) (tab N (fun f => rowtot W dem f)) idtot.
+
 (* rec.ledger *)
 Definition chk_recover (prec : Z) (t : nat) (pre post : list tracker) : list nat :=
   cmp_trackers (pow10 (- prec)) (recover_ledgers prec t pre) post.
